@@ -238,7 +238,13 @@ class RawMeshData:
                         (v3,v4,v8,v7)
                     ]
                 for face in faces_C:
-                    self.cell_faces._elem.append(face_id[utils.keyify(face)])
+                    iF = face_id.get(utils.keyify(face), None)
+                    if iF is None:
+                        # the faces of the cells are not in the face list (config.complete_faces_from_cells is False)
+                        self.cell_faces._elem = []
+                        self.cell_faces._adj = []
+                        return
+                    self.cell_faces._elem.append(iF)
                     self.cell_faces._adj.append(iC)
 
     def _complete_edges_from_faces(self):
